@@ -88,6 +88,24 @@ pub struct C16 {
 }
 
 const ALPHA: &[u8] = b" \t\r\na\x63";
+/// blanks, line ends and every byte that differs from one of them in one bit or by +-1
+/// (what a word-at-a-time implementation is most likely to confuse)
+fn neighbour_alphabet() -> Vec<u8> {
+    let mut v = vec![];
+    for &c in b" \t\n\r" {
+        v.push(c);
+        v.push(c.wrapping_add(1));
+        v.push(c.wrapping_sub(1));
+        for bit in 0..8 {
+            v.push(c ^ (1 << bit));
+        }
+    }
+    v.sort();
+    v.dedup();
+    v
+}
+/// alphabet of the complete 8-byte word enumeration (mode=words)
+const WORD_ALPHA: [u8; 6] = [b' ', b'\t', b'!', 0x08, b'\n', b'a'];
 
 fn nth_string(mut idx: u64) -> Vec<u8> {
     // strings ordered by length, then base-6 digits
@@ -345,6 +363,33 @@ impl Monitor for C16 {
                     ev.strict(rep, F::Fixed, o, p, pre, adv);
                 }
             }
+        } else if self.mode == "words" {
+            // every 8-byte word over WORD_ALPHA, fully buffered (so that word-at-a-time scanning, if any,
+            // is what runs), at start offsets 0 and 1, followed by a short tail
+            let mut s = vec![0u8; 8];
+            let mut x = idx;
+            for c in s.iter_mut() {
+                *c = WORD_ALPHA[(x % 6) as usize];
+                x /= 6;
+            }
+            s.extend_from_slice(match idx % 3 {
+                0 => b" a",
+                1 => b"!\t",
+                _ => b"",
+            });
+            let ev = Eval {
+                s: &s,
+                data: Rc::new(s.clone()),
+            };
+            rep.inc("strings");
+            rep.inc("words");
+            for o in 0..2 {
+                for f in [F::Blanks, F::Newline, F::NextNewline] {
+                    ev.strict(rep, f, o, &[], s.len(), 0);
+                    ev.strict(rep, f, o + 1, &[], s.len(), 1);
+                }
+                ev.strict(rep, F::Fixed, o, &s[o..o + 5], s.len(), 0);
+            }
         } else {
             // sampled: long strings across refills, random schedules and chunk sizes
             let len = match rng.below(4) {
@@ -354,12 +399,18 @@ impl Monitor for C16 {
                 _ => 16000 + rng.usize(3000),
             };
             let blanky = rng.chance(1, 2);
+            let neigh = neighbour_alphabet();
+            let wide = rng.chance(1, 2);
             let s: Vec<u8> = (0..len)
                 .map(|_| {
                     if blanky && rng.chance(9, 10) {
                         *rng.pick(b" \t")
                     } else if rng.chance(1, 40) {
                         b'\n'
+                    } else if wide && rng.chance(1, 2) {
+                        *rng.pick(&neigh)
+                    } else if wide && rng.chance(1, 8) {
+                        rng.next() as u8
                     } else {
                         *rng.pick(ALPHA)
                     }
